@@ -384,6 +384,7 @@ pub struct Sim {
     /// when false, events are hashed and counted but not stored
     pub store_log: bool,
     pub n_events: u64,
+    pub cap_hit: bool,
 }
 
 impl Sim {
@@ -404,6 +405,7 @@ impl Sim {
             total_sim_ns: 0,
             store_log: true,
             n_events: 0,
+            cap_hit: false,
         }
     }
     pub fn push(&mut self, th: u8, kind: EvKind) {
@@ -418,11 +420,13 @@ impl Sim {
         self.shape_hash ^= ev.shape();
         self.shape_hash = self.shape_hash.wrapping_mul(0x100000001b3);
         self.n_events += 1;
-        if self.store_log {
+        if self.store_log && !self.cap_hit {
             self.log.push(ev);
         }
-        if self.log.len() > self.event_cap {
-            // unwinds out of the library call that produced the event
+        if self.log.len() > self.event_cap && !self.cap_hit {
+            // unwinds (once) out of the library call that produced the event; the
+            // harness's own later events are counted but no longer stored
+            self.cap_hit = true;
             panic!("{}", EVENT_CAP_PANIC);
         }
     }
